@@ -100,14 +100,14 @@ func specGenuineER6(s *icmpDriver, p *packets.FrameParser, t uint8) bool {
 
 //@ func (*icmpDriver).findMatchingProbe
 //@ inline
-//@ safety C09
+//@ safety C09 C14
 //@ requires[pre.nonnil]  s != nil
 //@ ensures[C05.find]     ret1 == has(s.sentProbes, ttl) && ret0 == s.sentProbes[ttl]
 //@ modifies s.mu
 
 //@ func (*icmpDriver).getRTTFromRelSeq
 //@ inline
-//@ safety C09
+//@ safety C09 C14
 //@ requires[pre.nonnil]  s != nil
 //@ requires[pre.past]    forall(k, 0, 256, s.sentProbes[k] <= now())
 //@ ensures[C01.rtt.ok]   (ret1 == nil) == (specInRange(s, relSeq) && specSent(s, relSeq))
@@ -116,7 +116,7 @@ func specGenuineER6(s *icmpDriver, p *packets.FrameParser, t uint8) bool {
 //@ modifies s.mu, ghost clock
 
 //@ func (*icmpDriver).handleProbeLayers
-//@ safety C09
+//@ safety C09 C14
 //@ requires[pre.nonnil]     s != nil && parser != nil
 //@ requires[pre.parsed]     packets.SpecParsed(parser)
 //@ requires[pre.past]       forall(k, 0, 256, s.sentProbes[k] <= now())
@@ -175,11 +175,11 @@ func specGenuineER6(s *icmpDriver, p *packets.FrameParser, t uint8) bool {
 
 //@ func (*icmpDriver).storeProbe
 //@ inline
-//@ safety C06
+//@ safety C06 C14
 //@ requires[pre.nonnil]   s != nil && s.sentProbes != nil
 
 //@ func (*icmpDriver).SendProbe
-//@ safety C06 C05
+//@ safety C06 C05 C14
 //@ requires[pre.nonnil]   s != nil && s.sink != nil && s.sentProbes != nil
 //@ requires[C10.send.open]  selb(isOpen, ref(s.sink))
 //@ requires[pre.past]     forall(k, 0, 256, s.sentProbes[k] <= now())
@@ -195,7 +195,7 @@ func specGenuineER6(s *icmpDriver, p *packets.FrameParser, t uint8) bool {
 //@ modifies s.mu, map(s.sentProbes), ghost clock, ghost wrN, ghost wrClock
 
 //@ func (*icmpDriver).ReceiveProbe
-//@ safety C09
+//@ safety C09 C14
 //@ requires[pre.nonnil]     s != nil && s.source != nil && s.parser != nil && s.parser.parserv4 != nil && s.parser.parserv6 != nil
 //@ requires[C10.recv.open]  selb(isOpen, ref(s.source))
 //@ requires[pre.past]       forall(k, 0, 256, s.sentProbes[k] <= now())
